@@ -100,6 +100,13 @@ class C16(Check):
                     dt = rng.choice([0.0, 0.001, 0.3, 1.0, 1.0, 5.0, 86400.0])
                 ops.append(["clock", dt])
         start_frac = rng.choice([0.0, 0.5, 0.999])
+        # later additions draw from a generator of their own (the stream above stays what it was)
+        rng2 = random.Random(rng.getrandbits(48))
+        for op in ops:
+            if op[0] == "reorigin" and rng2.random() < 0.3:
+                # the application keeps ONE "new origin" dict and applies it to a batch of messages
+                op[0] = "reorigin_batch"
+                op.append(rng2.choice([2, 3, 5]))
         return {"identities": ids, "ops": ops, "start_frac": start_frac,
                 "sched": {"policy": "sequential", "p_sync": 0.0, "p_line": 0.0}}
 
@@ -223,6 +230,23 @@ class C16(Check):
                         if ent[0].session_id_avp.data not in raw:
                             violations.append({"clause": "message carries the regenerated Session-Id",
                                                "sig": "C16/reorigin-not-in-dump", "detail": {"op": opi}})
+                    elif kind == "reorigin_batch":
+                        new = ids[op[2]]
+                        upd = {"origin_host": new}          # one dict object for the whole batch
+                        for _ in range(op[3]):
+                            if not msgs:
+                                break
+                            ent = msgs.pop(op[1] % len(msgs))
+                            if new != ent[1]:
+                                stats["identity_switches"] += 1
+                            ent[0].update_avps(upd)
+                            ent[1] = new
+                            check_id(ent[0].session_id_avp.data, new, opi, "reorigin")
+                            hist_sig.append("r%d" % op[2])
+                            stats["shared_dict_updates"] = stats.get("shared_dict_updates", 0) + 1
+                            if ent[0].session_id_avp.data not in ent[0].dump():
+                                violations.append({"clause": "message carries the regenerated Session-Id",
+                                                   "sig": "C16/reorigin-not-in-dump", "detail": {"op": opi}})
                     elif kind == "clock_back":
                         sim.wall_offset -= op[1]
                         stats["clock_back"] = stats.get("clock_back", 0) + 1
